@@ -392,8 +392,9 @@ Crash ==
                       ELSE [ex |-> TRUE,
                             recs |-> TrimLost([i \in 1..Len(Recs(f)) |->
                                         IF i \notin Surv(f) THEN [Recs(f)[i] EXCEPT !.st = "lost"]
-                                        ELSE IF f \in Var /\ torn[f] /\ i = LastU(f) THEN [Recs(f)[i] EXCEPT !.st = "torn"]
-                                        ELSE Recs(f)[i]])]]
+                                        \* what survives the crash is on the disk: it cannot be lost by a later crash
+                                        ELSE IF f \in Var /\ torn[f] /\ i = LastU(f) THEN [Recs(f)[i] EXCEPT !.st = "torn", !.sy = TRUE]
+                                        ELSE [Recs(f)[i] EXCEPT !.sy = TRUE]])]]
          IN /\ \A f \in Var :
                  /\ keep[f] \subseteq UnsyncedOf(f)
                  /\ torn[f] => keep[f] # {}
